@@ -244,7 +244,10 @@ def render_item(it, names) -> str:
     if k == "gather":
         return f"{atom(it['s'][0], names)}.{atom(it['x'][0], names)}+"
     if k == "group":
-        return "(" + " | ".join(render_alt(a, names) for a in it["alts"]) + ")"
+        # a group is a scope of its own: its items are named from a fresh counter (prefix by nesting depth), so two groups with
+        # the same structure have the same text - which is what lets the generators share one helper rule between them
+        inner = [0, names[1] + 1] if len(names) > 1 else [0, 1]
+        return "(" + " | ".join(render_alt(a, inner) for a in it["alts"]) + ")"
     if k == "and":
         return f"&{atom(it['x'][0], names)}"
     if k == "not":
@@ -270,7 +273,7 @@ def render_alt(a, names) -> str:
             parts.append(render_item(it, names))
         else:
             names[0] += 1
-            v = f"v{names[0]}"
+            v = f"{'vghijklm'[names[1] if len(names) > 1 else 0]}{names[0]}"
             vs.append(v)
             parts.append(f"{v}={render_item(it, names)}")
     return " ".join(parts) + " { (" + ", ".join([repr(a["tag"])] + vs) + ",) }"
@@ -281,7 +284,7 @@ def render(g, header: str) -> str:
     if header == HEADER_PEGEN:
         out.append("start: r1")
     for i, r in enumerate(g, 1):
-        names = [0]
+        names = [0, 0]
         out.append(f"r{i}{' (memo)' if r['memo'] else ''}:")
         for a in r["alts"]:
             out.append("    | " + render_alt(a, names))
@@ -376,11 +379,14 @@ def fixed() -> list:
     G.append([Rl(A(D, Gather(comma, n), Gather(plus, n)), A("y", Plus(one), Plus(one), Plus(one)))])
     G.append([Rl(A("a", Not(k), n), A("b", k))])                                  # exactly one keyword: NAME must still match its substrings
     # helper rules are shared by structure: groups that differ only in a separator / a repetition kind / a lookahead sign / a token
-    G.append([Rl(A("a", plus, Group(A("g", Gather(comma, n), one)), plus), A("b", one, Group(A("g", Gather(plus, n), one)), one))])
-    G.append([Rl(A("a", plus, Group(A("g", Star(n), one)), plus), A("b", one, Group(A("g", Plus(n), one)), one))])
-    G.append([Rl(A("a", plus, Group(A("g", And(n), n)), plus), A("b", one, Group(A("g", Not(n), one)), one))])
-    G.append([Rl(A("a", plus, Group(A("g", Opt(n), one)), plus), A("b", one, Group(A("g", Opt(one), one)), one))])
-    G.append([Rl(A("a", plus, Group(A("g", Gather(comma, n), one), A("h", n)), plus), A("b", comma, Group(A("g", Gather(plus, n), one), A("h", n)), comma))])
+    # (written so that a token string of length <= 3 tells the twins apart: the first alternative needs a keyword after its group)
+    G.append([Rl(A("a", Group(A("g", Gather(comma, n), Opt(one))), k), A("b", Group(A("g", Gather(plus, n), Opt(one)))))])
+    G.append([Rl(A("a", Group(A("g", Star(n), one)), k), A("b", Group(A("g", Plus(n), one))))])
+    G.append([Rl(A("a", Group(A("g", And(n), Opt(n), one)), k), A("b", Group(A("g", Not(n), Opt(n), one))))])
+    G.append([Rl(A("a", Group(A("g", Opt(n), one)), k), A("b", Group(A("g", Opt(one), one))))])
+    G.append([Rl(A("a", Group(A("g", Gather(comma, n), Opt(one)), A("h", plus)), k), A("b", Group(A("g", Gather(plus, n), Opt(one)), A("h", plus))))])
+    G.append([Rl(A("a", Group(A("g", Gather(comma, n), Opt(one))), k)), Rl(A("b", Group(A("g", Gather(plus, n), Opt(one)))))])   # twins in two rules
+    G[-1][0]["alts"].append(A("c", R(2)))
     # a keyword that occurs only as a separator / only under a lookahead / only forced / only inside a group is still a keyword
     G.append([Rl(A("a", Gather(k, n), plus), A("b", n, one))])
     G.append([Rl(A("a", Not(k), n, plus), A("b", n, comma))])
